@@ -198,7 +198,12 @@ class Renderer:
         if k == 'e':
             # optional third item: sheet qualifier of the literal as Excel
             # leaves it behind, e.g. 'Bob''s data'!#REF!
-            return (e[2] if len(e) > 2 else '') + v
+            q = e[2] if len(e) > 2 else ''
+            if q.startswith('>'):       # #REF!A1 (the sheet was deleted)
+                return v + q[1:]
+            if q == 'lower':
+                return v.lower()
+            return q + v
         raise ValueError(e)
 
     def ref(self, e, host):
